@@ -35,6 +35,16 @@ type Engine struct {
 	Defaults    Limits
 	Verbose     bool
 	WantWitness func(h *Harness) bool
+	MirrorBin     []string
+	Disagreements int
+	MirrorLost    int
+}
+
+func boolInt(b bool) int {
+	if b {
+		return 1
+	}
+	return 0
 }
 
 type Harness struct {
@@ -342,7 +352,16 @@ func (e *Engine) RunAll(hs []*Harness, progress func(*HarnessResult)) []*Harness
 		go func() {
 			defer wg.Done()
 			z := sym.NewSolver(e.SolverBin, e.TimeoutMs)
-			defer z.Close()
+			if len(e.MirrorBin) > 0 {
+				z.Mirror = sym.NewSolver(e.MirrorBin, e.TimeoutMs)
+			}
+			defer func() {
+				mu.Lock()
+				e.Disagreements += z.Disagree
+				e.MirrorLost += boolInt(len(e.MirrorBin) > 0 && z.Mirror == nil)
+				mu.Unlock()
+				z.Close()
+			}()
 			for {
 				mu.Lock()
 				for len(queue) == 0 && inflight > 0 {
